@@ -136,6 +136,18 @@ def specCheck (prop : String) (op res : List String) : String :=
     else if (r.splitOn "PANIC").length > 1 then "fail panic while serving through a loading route"
     else if r.startsWith "config-rejected" then "fail a loading route was rejected by NewTranscoder"
     else "ok"
+  | "C07", ["rest_rt", _] =>
+    -- a message converted to a REST request and parsed back must be unchanged
+    match res with
+    | "enc" :: _ => verdict (res.getLast? == some "same=1") "a message converted to REST and back changed (or could not be parsed back)"
+    | ["encerr", _] => "ok"      -- the message does not fit the rule's pattern / cannot be URL-encoded
+    | ["config-rejected"] => "ok"
+    | _ => "fail unparsable result"
+  | "C07", [op, h] =>
+    if op == "rest_in" || op == "rest_http" then
+      -- an ill-typed parameter is invalid_argument, never a value: judged against the model's kinds
+      verdict (runRestIn h == " ".intercalate res) "REST request parsed differently from the binding rules (google.api.http)"
+    else "nospec"
   | "C17", ["config", h] => specConfig h res
   | "C17", ["config_err", h] => specConfigErr h res
   | "C19", ["e2e_getpost", a, b] => specGetPost a b res
